@@ -2,12 +2,10 @@ import Verif.Base.Pack
 import Verif.Spec.HtmlRefs
 import Verif.Spec.HtmlTraits
 import Verif.Spec.CssUnits
-import Verif.Gen.TagTraits
-import Verif.Gen.AttrTraits
 /-!
 # C17 — per-row checkers: "this table row is justified by the specification"
 
-One Boolean function per table, built from `Spec/HtmlRefs`, `Spec/HtmlTraits`, `Spec/CssUnits` only.
+One Boolean function per table (those for the HTML trait tables are in `Spec/TraitChecks.lean`), built from `Spec/HtmlRefs`, `Spec/HtmlTraits`, `Spec/CssUnits` only.
 `Props/C17.lean` proves `table.all check = true` for the regenerated tables (`decide +kernel`) and unfolds that into
 the quantified statements; the driver (`Driver/C17.lean`, ops `bad.*`) evaluates the same functions to list the
 offending rows when a proof no longer checks, and the harness turns those rows into minifier inputs.
@@ -15,8 +13,6 @@ Rows are packed strings (`Base/Pack.lean`).  Core only.
 -/
 namespace Verif.Spec.TableChecks
 open Verif Verif.Spec.HtmlRefs Verif.Spec.HtmlTraits Verif.Spec.CssUnits
-open Verif.Gen.TagTraits (TagTrait)
-open Verif.Gen.AttrTraits (AttrTrait)
 
 /-! ## character references -/
 
@@ -74,20 +70,6 @@ def colorHexRowOk (row : Nat × Nat) : Bool :=
 def colorNameRowOk (row : Nat × Nat) : Bool :=
   namedColorCps (unpack row.1) == hexColorCps (unpack row.2) && (namedColorCps (unpack row.1)).isSome &&
   decide ((unpack row.2).length ≤ (unpack row.1).length)
-
-/-! ## traits -/
-
-def boolAttrRowOk (row : Nat × List AttrTrait) : Bool :=
-  !row.2.contains AttrTrait.booleanAttr || isBooleanAttr row.1
-
-def urlAttrRowOk (row : Nat × List AttrTrait) : Bool :=
-  !row.2.contains AttrTrait.urlAttr || isUrlAttr row.1
-
-def rawTagRowOk (row : Nat × List TagTrait) : Bool :=
-  !row.2.contains TagTrait.rawTag || isRawJustified row.1
-
-def blockTagRowOk (row : Nat × List TagTrait) : Bool :=
-  !row.2.contains TagTrait.blockTag || isWsInsignificant row.1
 
 /-! ## hash name tables -/
 
